@@ -4,7 +4,7 @@
 import re
 
 from .core import Undecided, op_const, op_local, op_place
-from .flow import _strip, edge_facts
+from .flow import _strip, cp_switch_target, cp_transfer, edge_facts
 from .hirq import res_path, walk
 
 
@@ -130,39 +130,13 @@ def enum_paths(fn, max_paths=4000, max_len=400, start=0, stops=(), inner_loops="
     out = []
     succs = fn.succs()
 
-    def bool_consts_of_block(b, env):
-        env = dict(env)
-        for s in fn.stmts(b):
-            if s[0] == "=" and not s[1][1]:
-                l = s[1][0]
-                rv = s[2]
-                if rv[0] == "use":
-                    c = op_const(rv[1])
-                    if c is not None and c[0] == "bool":
-                        env[l] = (c[2].get("int") == "1") if "int" in c[2] else (c[1] == "true")
-                        continue
-                    sl = op_local(rv[1])
-                    if sl is not None and sl in env:
-                        env[l] = env[sl]
-                        continue
-                if rv[0] == "un" and rv[1] == "Not":
-                    sl = op_local(rv[2])
-                    if sl is not None and sl in env:
-                        env[l] = not env[sl]
-                        continue
-                env.pop(l, None)
-        t = fn.term(b)
-        if t[0] == "call" and not t[3][1]:
-            env.pop(t[3][0], None)
-        return env
-
     def rec(b, atoms, env, path, onpath):
         if len(out) >= max_paths or len(path) > max_len:
             raise Undecided("too many paths in %s" % fn.name)
         if b in stops and path:
             out.append((list(atoms), b, list(path) + [b]))
             return
-        env = bool_consts_of_block(b, env)
+        env = cp_transfer(fn, b, env)
         t = fn.term(b)
         if t[0] == "ret":
             out.append((list(atoms), b, list(path) + [b]))
@@ -170,8 +144,8 @@ def enum_paths(fn, max_paths=4000, max_len=400, start=0, stops=(), inner_loops="
         if t[0] == "switch":
             info = fn.switch_info(b)
             l = info.get("local")
-            if info.get("kind") == "bool" and l in env:
-                s = info["edges"][env[l]]
+            s = cp_switch_target(fn, b, env)
+            if s is not None:
                 if s not in onpath:
                     rec(s, atoms, env, path + [b], onpath | {b})
                 return
@@ -214,6 +188,17 @@ def enum_paths(fn, max_paths=4000, max_len=400, start=0, stops=(), inner_loops="
 
 
 def return_value_on_path(fn, path):
+    """symbolic value assigned to the return place by the last assignment on the path; locals
+    with several definitions (match / if results) are resolved to their definition on this path"""
+    old = getattr(fn, "_sym_path", None)
+    fn._sym_path = {b: i for i, b in enumerate(path)}
+    try:
+        return _return_value_on_path(fn, path)
+    finally:
+        fn._sym_path = old
+
+
+def _return_value_on_path(fn, path):
     """symbolic value assigned to the return place by the last assignment on the path"""
     val = None
     for b in path:
